@@ -87,7 +87,7 @@ class BeginContext(PintParsedStatement):
     """
 
     _header_re = re.compile(
-        r"@context\s*(?P<defaults>\(.*\))?\s+(?P<name>\w+)\s*(=(?P<aliases>.*))*"
+        r"@context\s*(?P<defaults>\(.*\))?\s+(?P<name>\w+)\s*(?:=(?P<aliases>.*)|#.*)?$"
     )
 
     name: str
